@@ -347,8 +347,8 @@ func c19noclobber(c *an.Ctx) {
 				linkSucc = append(linkSucc, s...)
 			}
 		})
-		q := &an.PathQ{Fn: fn, StartEntry: true, Sink: func(in ssa.Instruction, _ *an.PathState) bool {
-			return isStdCall(in, "os", "Remove") || isSuccessReturn(in)
+		q := &an.PathQ{Fn: fn, StartEntry: true, Sink: func(in ssa.Instruction, ps *an.PathState) bool {
+			return isStdCall(in, "os", "Remove") || sinkSuccessReturn(in, ps)
 		},
 			CutEdge: func(e an.Edge, _ *an.PathState) bool { return an.EdgeIn(e, linkSucc) }}
 		w, f := q.Find()
